@@ -52,6 +52,7 @@ class AssembleAction : public Action {
 class SerialAssembleAction : public AssembleAction {
   public:
     using AssembleAction::AssembleAction;
+    virtual ~SerialAssembleAction();
 
   protected:
     virtual void onPause() override;
@@ -73,6 +74,7 @@ class SerialAssembleAction : public AssembleAction {
   private:
     Action *curr_action_ = nullptr;     //! 当前正在执行的动作
     ChildFinishFunc child_finish_func_; //! 上一个动用缓存的finish事件
+    event::Loop::RunId replay_run_id_ = 0;  //! onResume() 中重新派发 child_finish_func_ 的任务号，用于撤消
 };
 
 }
